@@ -210,6 +210,16 @@ Proof. vm_compute. repeat split; reflexivity. Qed.
 Definition labels_C16_example : list label :=
   Eval vm_compute in schedule fixed [] (init 1 3) [Enq 1 false 0; Enq 1 false 1; Enq 1 false 2; Enq 1 false 3].
 
+(* a complete run of the fixed model used by Props/C04.v / C09.v as non-vacuity example: W=1, L=2, seven items (full
+   queue, two blocked producers), everything finished *)
+Definition labels_C04_example : list label :=
+  Eval vm_compute in schedule fixed [] (init 1 2)
+    (env_F3 ++ [Finish 3 None; Finish 4 None; Finish 5 None; Finish 6 None; Finish 2 None]).
+(* the same workload before anything completes: the back-pressure state *)
+Definition labels_C09_example : list label :=
+  Eval vm_compute in schedule fixed [] (init 1 2)
+    [Enq 5 false 0; Enq 5 false 1; Enq 9 false 2; Enq 8 false 3; Enq 1 false 4; Enq 7 false 5; Enq 0 false 6].
+
 (* ---- outside the six properties' scope, recorded because the harness met it: Dequeue while the dispatcher is NOT
    idle (it waits for a token in the full-queue branch) can empty the heap, and the dispatcher then pops an empty
    heap: a crash of the FIXED code too.  C16 restricts the calls to an idle dispatcher; this shows why. ---- *)
